@@ -2134,7 +2134,10 @@ func runC13(c *Ctx) {
 	cf6 := &CaseFile{}
 	im7 := NewImpl("C13", c.Seed, c.Tier)
 	cf7 := &CaseFile{}
-	wg.Add(5)
+	im8 := NewImpl("C13", c.Seed, c.Tier)
+	cf8 := &CaseFile{}
+	wg.Add(6)
+	go func() { defer wg.Done(); part8(c, im8, cf8, tmp) }()
 	go func() { defer wg.Done(); part7(c, im7, cf7, tmp) }()
 	go func() { defer wg.Done(); part6(c, im6, cf6, tmp) }()
 	go func() { defer wg.Done(); part4(c, im4, tmp) }()
@@ -2158,6 +2161,10 @@ func runC13(c *Ctx) {
 		cf.Add(cf7.Cases[i], cf7.Labels[i])
 	}
 	mergeImpl(im, im7)
+	for i := range cf8.Cases {
+		cf.Add(cf8.Cases[i], cf8.Labels[i])
+	}
+	mergeImpl(im, im8)
 	mergeImpl(im, im4)
 	Must(cf.Write())
 	Must(im.Write(c.Out))
